@@ -57,8 +57,11 @@ def cases(draw):
         case["target"] = draw(common.target_spec(g))
     if chan == "endpoint":
         case["cache_off"] = draw(st.booleans())
-    if draw(st.integers(0, 5)) == 0:
+    k = draw(st.integers(0, 7))
+    if k == 0:
         case["all_prefixes_taken"] = True      # the documented exception: a random prefix is chosen
+    elif k in (1, 2, 3) and chan != "sm":
+        case["prefixes_taken"] = k             # 1..3 of the four default shape prefixes are taken: still deterministic
     return case
 
 
@@ -70,6 +73,8 @@ def run_case_here(case):
     kw = dict(cfg)
     kw["instantiation_property"] = g["inst_prop"]
     kw["namespaces_dict"] = dict(NS4) if case.get("all_prefixes_taken") else dict(c10.NSD)
+    if case.get("prefixes_taken"):
+        kw["namespaces_dict"] = dict(list(NS4.items())[:case["prefixes_taken"]])
     chan = case["chan"]
     if chan == "sm":
         lines = ["%s@%s" % (selectors.render(it["sel"], c10.NSD, it["styles"]), c10.label_text(it["label"])) for it in case["items"]]
@@ -163,6 +168,8 @@ def judge(case, recs_by_seed):
         return discard("crash:" + str(errs[seeds[0]]))
     if case.get("all_prefixes_taken"):
         labels.add("all-default-prefixes-taken")
+    if case.get("prefixes_taken"):
+        labels.add("some-default-prefixes-taken")
     key = "shex" if case["fmt"] == "ShEx" else "shacl"
     vals = {hs: recs_by_seed[hs][key] for hs in seeds}
     if len(set(vals.values())) == 1:
